@@ -13,8 +13,16 @@ import (
 
 func init() {
 	execs["marks"] = execMarks
-	execs["pre"] = func(a []Tok) string { return fmtInts(graphalg.PreOrder(graph.IntGraph(a[0].Intss()), a[1].Int())) }
-	execs["post"] = func(a []Tok) string { return fmtInts(graphalg.PostOrder(graph.IntGraph(a[0].Intss()), a[1].Int())) }
+	execs["pre"] = func(a []Tok) string {
+		r := graphalg.PreOrder(graph.IntGraph(a[0].Intss()), a[1].Int())
+		churnGraphs()
+		return fmtInts(r)
+	}
+	execs["post"] = func(a []Tok) string {
+		r := graphalg.PostOrder(graph.IntGraph(a[0].Intss()), a[1].Int())
+		churnGraphs()
+		return fmtInts(r)
+	}
 	execs["euler"] = execEuler
 	execs["rev"] = func(a []Tok) string { return fmtInts(graphalg.Reverse(a[0].Ints())) }
 	execs["scc"] = execSCC
@@ -44,6 +52,21 @@ func bytesTok(s string) string {
 		xs[i] = int(s[i])
 	}
 	return fmtInts(xs)
+}
+
+// churnGraphs runs the graph entry points on two fixed graphs (what a program does between
+// obtaining a result and reading it).
+func churnGraphs() {
+	for _, g := range []graph.IntGraph{{{1, 2, 2}, {0}, {2, 3}, {}}, {{0}}, {{1}, {2}, {3}, {4}, {5}, {0, 3}}} {
+		graphalg.SCC(g, graphalg.SCCEdges|graphalg.SCCSubnodeComponent)
+		graphalg.SimplifyMulti(g)
+		graphalg.PreOrder(g, 0)
+		graphalg.PostOrder(g, 0)
+		b := graph.MakeBiGraph(g)
+		graphalg.Dom(graphalg.IDom(b, 0))
+		graph.SubgraphRemove(g, []int{0}, nil)
+		graph.SubgraphKeep(g, []int{0}, nil)
+	}
 }
 
 func execMarks(a []Tok) string {
@@ -83,6 +106,7 @@ func execSCC(a []Tok) string {
 	g := graph.IntGraph(a[0].Intss())
 	flags := graphalg.SCCFlags(a[1].Int())
 	s := graphalg.SCC(g, flags)
+	churnGraphs() // results are read only after the same entry points ran on other graphs
 	n := s.NumNodes()
 	comps := make([][]int, n)
 	for c := 0; c < n; c++ {
@@ -125,6 +149,7 @@ func execSimp(a []Tok) string {
 		g = wgraph{ig, w}
 	}
 	s := graphalg.SimplifyMulti(g)
+	churnGraphs()
 	parts := make([]string, s.NumNodes())
 	for v := 0; v < s.NumNodes(); v++ {
 		o := s.Out(v)
@@ -150,6 +175,7 @@ func execSub(a []Tok, keep bool) string {
 	} else {
 		s = graph.SubgraphRemove(g, nodes, edges)
 	}
+	churnGraphs()
 	nm := s.NodeMap(func(n int) interface{} { return n })
 	em := s.EdgeMap(func(n, e int) interface{} { return [2]int{n, e} })
 	parts := make([]string, s.NumNodes())
@@ -172,6 +198,7 @@ func execSub(a []Tok, keep bool) string {
 func execBigraph(a []Tok) string {
 	g := graph.IntGraph(a[0].Intss())
 	b := graph.MakeBiGraph(g)
+	churnGraphs()
 	ins := make([][]int, len(g))
 	for v := range g {
 		ins[v] = b.In(v)
